@@ -92,7 +92,7 @@ def c01_1(c: Ctx) -> None:
             c.fail(u, f'lookup under {k} does not flow into the selection loop', f'handlers read under {k} never reach the loop that selects handlers', node=node)
     # the iterated variable must not be rebound to something that drops elements after the lookups
     for n in own_nodes_list(u):
-        if isinstance(n, (ast.Assign, ast.AnnAssign)) and n.lineno > max(x.lineno for x, _ in lookups) and n.lineno < loop.lineno:
+        if isinstance(n, (ast.Assign, ast.AnnAssign)) and lookups and n.lineno > max(x.lineno for x, _ in lookups) and n.lineno < loop.lineno and not any(x is loop for x in ast.walk(n)):
             tg = n.targets if isinstance(n, ast.Assign) else [n.target]
             if any(isinstance(t, ast.Name) and t.id in it_names for t in tg):
                 v = n.value
@@ -117,11 +117,45 @@ def own_nodes_list(u: Unit) -> list[ast.AST]:
     return sorted(own_nodes(u.node), key=lambda n: (getattr(n, 'lineno', 0), getattr(n, 'col_offset', 0)))
 
 
-def selection_loop(c: Ctx, u: Unit) -> ast.For:
+def selection_loop(c: Ctx, u: Unit):
+    """The construct that selects handlers: a `for` loop, or a dict comprehension, that calls _would_create_loop."""
     loops = [n for n in own_nodes_list(u) if isinstance(n, ast.For) and any(isinstance(x, ast.Call) and call_name(x) == '_would_create_loop' for x in ast.walk(n))]
-    if len(loops) != 1:
-        raise AnchorError(f'{u}: expected exactly one selection loop calling _would_create_loop, found {len(loops)}')
+    comps = [n for n in own_nodes_list(u) if isinstance(n, ast.DictComp) and any(isinstance(x, ast.Call) and call_name(x) == '_would_create_loop' for x in ast.walk(n))]
+    if len(loops) + len(comps) != 1:
+        raise AnchorError(f'{u}: expected exactly one selection loop / comprehension calling _would_create_loop, found {len(loops) + len(comps)}')
+    if comps:
+        comp = comps[0]
+        if len(comp.generators) != 1:
+            raise AnchorError(f'{u}: selection comprehension with {len(comp.generators)} generators')
+        comp.iter = comp.generators[0].iter  # uniform access for the flow check
+        return comp
     return loops[0]
+
+
+def check_selection_comprehension(c: Ctx, u: Unit, comp: ast.DictComp) -> None:
+    gen = comp.generators[0]
+    hv = U(gen.target)
+    wcl = [x for x in ast.walk(comp) if isinstance(x, ast.Call) and call_name(x) == '_would_create_loop']
+    cond_ok = len(gen.ifs) == 1 and isinstance(gen.ifs[0], ast.UnaryOp) and isinstance(gen.ifs[0].op, ast.Not) and gen.ifs[0].operand is wcl[0] and len(wcl) == 1
+    if cond_ok:
+        c.ok(where(u, comp), f'a handler is dropped only under {U(wcl[0])} (comprehension filter)')
+    else:
+        c.fail(u, f'selection comprehension filters by {[U(i)[:60] for i in gen.ifs]}', 'a handler can be dropped by the selection although it would not create a loop', node=comp)
+    k = comp.key
+    good = isinstance(k, ast.Call) and call_name(k) == 'get_handler_id' and len(k.args) >= 2 and U(k.args[0]) == hv and U(k.args[1]) == u.params()[0] and U(comp.value) == hv
+    if good:
+        c.ok(where(u, comp), f'handlers are keyed by {U(k)} (bus-qualified id)')
+    else:
+        c.fail(u, f'selection comprehension maps {U(k)[:50]} -> {U(comp.value)[:30]}', 'selected handlers are not keyed by get_handler_id(handler, self): same-named / same handler on several buses collide', node=comp)
+    rets = [n for n in own_nodes_list(u) if isinstance(n, ast.Return) and n.value is not None]
+    holder = None
+    p_ = parent_of(comp)
+    if isinstance(p_, (ast.Assign, ast.AnnAssign)):
+        holder = U(p_.targets[0] if isinstance(p_, ast.Assign) else p_.target)
+    if rets and all((U(r.value) == holder) or (r.value is comp) for r in rets):
+        c.ok(where(u, rets[0]), 'the function returns the selected mapping')
+    else:
+        c.fail(u, f'returns {[U(r.value)[:40] for r in rets]}', 'the selected handler mapping is not what the function returns', node=comp)
 
 
 @ob('C01.2', 'DOM/SHAPE', 'the selection loop drops a handler only under _would_create_loop(event, handler); every other handler is stored under '
@@ -130,6 +164,10 @@ def c01_2(c: Ctx) -> None:
     u = c.unit(SVC, 'EventBus._get_applicable_handlers')
     g = c.cfg(u)
     loop = selection_loop(c, u)
+    if isinstance(loop, ast.DictComp):
+        check_selection_comprehension(c, u, loop)
+        check_handler_id_shape(c)
+        return
     heads = g.nodes_of(loop, ('for',))
     if len(heads) != 1:
         raise AnalysisError('selection loop has no unique CFG head')
@@ -182,6 +220,10 @@ def c01_2(c: Ctx) -> None:
             c.ok(where(u, s), f'handlers are keyed by {U(kcall)} (bus-qualified id)')
         else:
             c.fail(u, f'store key is {U(kcall)}', 'selected handlers are not keyed by get_handler_id(handler, self): same-named / same handler on several buses collide', node=s)
+    check_handler_id_shape(c)
+
+
+def check_handler_id_shape(c: Ctx) -> None:
     # get_handler_id shape, evaluated abstractly
     ug = c.unit(MOD, 'get_handler_id')
     ai = AbsInt()
